@@ -795,6 +795,49 @@ func C10(c *core.Ctx) {
 		c.Decide(reassembles || off, "R10.11", "internal-face-does-not-fragment", p.Pos(reg.Pos()), "the internal link service is created with fragmentation disabled (its receiver does not reassemble)", "the internal face's link service fragments packets that exceed its frame limit, but InternalTransport.Receive hands every frame to the component as one packet: a large Interest reaches management as truncated pieces")
 	}
 
+	// ---- R10.14 the two directions of the internal face agree on the frame limit. Both carry
+	// a whole network packet plus NDNLPv2 headers in one frame (neither side fragments): a size
+	// test in a method of the internal transport that compares a frame with a constant below
+	// the transport's own frame limit drops packets of legal size in that direction only
+	// (8785–8800 octets sent by management).
+	{
+		nCmp := 0
+		lim, haveLim := lookupConst(p, "fw/face", "internalTransportMTU")
+		var it *types.Named
+		if t := p.Named("fw/face", "InternalTransport"); t != nil {
+			it = t
+		}
+		if it == nil || !haveLim {
+			c.Und("R10.14", "anchor:internal-transport", "-", "InternalTransport or its frame-limit constant not found")
+		} else {
+			for _, fn := range p.FuncsIn(core.ModPath + "/fw/face") {
+				if core.FuncID(core.RootOf(fn)).Recv != "InternalTransport" {
+					continue
+				}
+				core.Instrs(fn, func(in ssa.Instruction) {
+					bo, ok := in.(*ssa.BinOp)
+					if !ok || (bo.Op != token.GTR && bo.Op != token.GEQ && bo.Op != token.LSS && bo.Op != token.LEQ) {
+						return
+					}
+					x, y := bo.X, bo.Y
+					if _, isLen := core.LenOf(y); isLen {
+						x, y = y, x
+					}
+					if _, isLen := core.LenOf(x); !isLen {
+						return
+					}
+					k, isC := core.ConstInt(y)
+					if isC && k < 256 {
+						return // a presence test (len > 0), not a frame limit
+					}
+					nCmp++
+					c.Decide(!isC || k >= lim, "R10.14", fmt.Sprintf("internal-face-frame-limit:%s", core.FuncName(fn)), c.Pos(in), "frames are measured against the transport's frame limit", fmt.Sprintf("%s measures a frame of the internal face against the constant %d, below the transport's frame limit (%d = largest packet plus link-layer headers) that the other direction applies: a packet of legal size that management sends with its NDNLPv2 headers (PIT token, next-hop face id) is dropped — delivered zero times", core.FuncName(fn), k, lim))
+				})
+			}
+			c.Floor("R10.14", "size tests on frames in the internal transport", nCmp, 2)
+		}
+	}
+
 	// ---- R10.9 the number of fragments is not "quotient + 1": len/size + 1 pieces of at
 	// most size bytes include an EMPTY last piece whenever size divides len — the receiver
 	// drops an empty fragment as IDLE and never completes the message. (Only this known-wrong
